@@ -358,6 +358,6 @@ func statementFilingRule(P *Program, R *Report) {
 		},
 		Match: func(a Atom) bool {
 			c, idx := callAndResult(a.V)
-			return c != nil && calleeName(c) == "rangeproof.(*Statement).ProofStructure" && idx == 1 && a.Want == Nil
+			return c != nil && calleeIs(c, "rangeproof.(*Statement).ProofStructure") && idx == 1 && a.Want == Nil
 		}})
 }
